@@ -11,6 +11,15 @@
 //	        end of the bridge (runBridgeLifecycle removes it); the port mapping comes from a
 //	        cloud-control stub carrying the generated values.  Lookups as in direct mode.
 //
+//	gated   the call sites step by step (spec/Routing.tla Mode "split"): the SessionManager's
+//	        RoutingTable sits on a gate-controlled wrapper of the node's storage (harness/sched), so
+//	        the Set of tunnox:tunnel_waiting:<id> inside startSourceBridge is parked (Create), the
+//	        tunnel can be ended through the real bridge while that write is in flight (TunnelEnd),
+//	        the write is released (Set) and the lifecycle's RemoveWaitingTunnel is a step of its own
+//	        (Removed).  If the code issues the removal while the write is still parked - which the
+//	        as-is code cannot - it is let through at once (its own order), the run is marked
+//	        fw.Diverged and judged.  Lookups go through ungated RoutingTables of every node.
+//
 // Field values are compared in Go (fieldsEqual is logged as a boolean); spec/RoutingTrace.tla
 // judges the recorded lookups.
 package main
@@ -28,11 +37,38 @@ import (
 
 	"tunnox-core/internal/cloud/models"
 	"tunnox-core/internal/cloud/stats"
+	"tunnox-core/internal/core/storage"
 	"tunnox-core/internal/protocol/session"
 	"tunnox-core/verifharness/drivers/c08/wire"
 	"tunnox-core/verifharness/fw"
+	"tunnox-core/verifharness/sched"
 	"tunnox-core/verifharness/srvkit"
 )
+
+const waitingPrefix = "tunnox:tunnel_waiting:"
+
+// gatedStore parks writes and deletes of routing records at a scheduler gate; everything else
+// passes straight through to the node's storage.
+type gatedStore struct {
+	storage.Storage
+	s *sched.Sched
+}
+
+func (g *gatedStore) Set(key string, v any, ttl time.Duration) error {
+	if strings.HasPrefix(key, waitingPrefix) {
+		g.s.Gate("rt.Set", map[string]any{"key": key})
+		defer g.s.After()
+	}
+	return g.Storage.Set(key, v, ttl)
+}
+
+func (g *gatedStore) Delete(key string) error {
+	if strings.HasPrefix(key, waitingPrefix) {
+		g.s.Gate("rt.Delete", map[string]any{"key": key})
+		defer g.s.After()
+	}
+	return g.Storage.Delete(key)
+}
 
 // Model tick -> real time.  Waiting period = 1 tick.
 //
@@ -197,9 +233,23 @@ type world struct {
 	mapOf  map[string]string // site mode: model tunnel -> mapping id of its latest registration
 	rng    *rand.Rand
 	cancel context.CancelFunc
+
+	// gated mode
+	sch      *sched.Sched
+	gmu      sync.Mutex
+	keyT     map[string]string // routing key -> model tunnel
+	regProc  map[string]string // model tunnel -> scheduler process of its StartServerTunnel call
+	inFlight map[string]bool   // model tunnel -> its record's Set is parked
+	pendWant map[string]fields
+	nReg     map[string]int
+	nLife    map[string]int // lifecycle removals of the tunnel id already let through
+	diverged string
 }
 
 func (wd *world) Close() {
+	if wd.sch != nil {
+		wd.sch.Drain(2 * time.Second)
+	}
 	for _, s := range wd.srv {
 		s.Close()
 	}
@@ -226,9 +276,29 @@ func newWorld(env *fw.Env, b fw.Behaviour, beh behaviour) (*world, error) {
 	}
 	wd := &world{beh: beh, w: w, nodes: nodes, rt: map[string]*session.TunnelRoutingTable{}, srv: map[string]*srvkit.Server{}, cloud: map[string]*cloudStub{},
 		addrs: map[string]string{}, ids: map[string]string{}, want: map[string]fields{}, mapOf: map[string]string{}, rng: rand.New(rand.NewSource(seed)), cancel: cancel}
+	if beh.Mode == "gated" {
+		wd.sch = sched.New(false)
+		wd.sch.Watchdog = 2 * time.Second
+		wd.keyT, wd.regProc, wd.inFlight = map[string]string{}, map[string]string{}, map[string]bool{}
+		wd.pendWant, wd.nReg, wd.nLife = map[string]fields{}, map[string]int{}, map[string]int{}
+		// goroutines the server spawns itself: the bridge lifecycle is adopted when it comes to
+		// remove a routing record; anything else passes ungated
+		wd.sch.Adopt = func(g sched.GateInfo) string {
+			if g.Point != "rt.Delete" {
+				return ""
+			}
+			key, _ := g.Info["key"].(string)
+			wd.gmu.Lock()
+			defer wd.gmu.Unlock()
+			if t, ok := wd.keyT[key]; ok {
+				return "life:" + t
+			}
+			return ""
+		}
+	}
 	for _, n := range nodes {
 		wd.rt[n] = session.NewTunnelRoutingTable(w.Stores[n], period)
-		if beh.Mode == "site" {
+		if beh.Mode == "site" || beh.Mode == "gated" {
 			s, err := srvkit.NewServer(srvkit.Options{NodeID: "node-" + n, HeartbeatTimeout: time.Hour, CleanupInterval: time.Hour, NoConnState: true})
 			if err != nil {
 				wd.Close()
@@ -237,7 +307,11 @@ func newWorld(env *fw.Env, b fw.Behaviour, beh behaviour) (*world, error) {
 			wd.srv[n] = s
 			wd.cloud[n] = &cloudStub{m: map[string]*models.PortMapping{}}
 			s.SM.SetCloudControl(wd.cloud[n])
-			s.SM.SetTunnelRoutingTable(wd.rt[n])
+			if beh.Mode == "gated" {
+				s.SM.SetTunnelRoutingTable(session.NewTunnelRoutingTable(&gatedStore{Storage: w.Stores[n], s: wd.sch}, period))
+			} else {
+				s.SM.SetTunnelRoutingTable(wd.rt[n])
+			}
 		}
 	}
 	return wd, nil
@@ -371,6 +445,128 @@ func (wd *world) remove(n, t string) (fw.Event, *fw.Trace) {
 	return ev, nil
 }
 
+// ---- gated mode: the call sites step by step --------------------------------------------------
+
+func (wd *world) lifeName(t string) string { return fmt.Sprintf("life:%s#%d", t, wd.nLife[t]+1) }
+
+// lifeParked reports whether the lifecycle of t's current bridge is parked at its routing-record removal.
+func (wd *world) lifeParked(t string) bool {
+	st, _ := wd.sch.State(wd.lifeName(t))
+	return st == sched.Parked
+}
+
+func (wd *world) waitLife(t string, d time.Duration) bool {
+	deadline := time.Now().Add(d)
+	for {
+		if wd.lifeParked(t) {
+			return true
+		}
+		if time.Now().After(deadline) {
+			return false
+		}
+		time.Sleep(200 * time.Microsecond)
+	}
+}
+
+func (wd *world) letRemove(n, t string) fw.Event {
+	wd.sch.Step(wd.lifeName(t))
+	wd.nLife[t]++
+	return fw.Event{"ev": "Removed", "n": n, "t": t}
+}
+
+// early returns the Removed events of removals the code issued while the record's write is still
+// parked (the as-is code cannot: its lifecycle goroutine starts after the write returned).  The
+// removal was issued first, so it is let through first; the run has left the model's schedule.
+func (wd *world) early(n string, except string) []fw.Event {
+	var out []fw.Event
+	for t, fl := range wd.inFlight {
+		if fl && t != except && wd.lifeParked(t) {
+			out = append(out, wd.letRemove(n, t))
+			wd.diverged = "the removal of " + t + "'s routing record was issued while its write was still in flight"
+		}
+	}
+	return out
+}
+
+func (wd *world) gatedStep(s step, next *step) ([]fw.Event, time.Duration, *fw.Trace) {
+	n, t := s.N, s.T
+	sm := func() *session.SessionManager { return wd.srv[n].SM }
+	switch s.A {
+	case "Create":
+		f := genFields(wd.rng, wd.beh.Cls, "")
+		if f.MappingID == "" {
+			f.MappingID = "m-" + t
+		}
+		wd.cloud[n].mu.Lock()
+		wd.cloud[n].m[f.MappingID] = &models.PortMapping{ID: f.MappingID, ListenClientID: f.SourceClientID, TargetClientID: f.TargetClientID,
+			TargetHost: f.TargetHost, TargetPort: f.TargetPort, SecretKey: f.SecretKey, Protocol: "udp"}
+		wd.cloud[n].mu.Unlock()
+		wd.nReg[t]++
+		name := fmt.Sprintf("reg:%s:%d", t, wd.nReg[t])
+		mid := f.MappingID
+		st := wd.sch.Start(name, func() any {
+			_, err := sm().StartServerTunnel(mid, srvkit.NewTransport("10.1.1.1", 40000+wd.nReg[t]))
+			return err
+		})
+		_, gi := wd.sch.State(name)
+		if st != sched.Parked || gi.Point != "rt.Set" {
+			return nil, 0, &fw.Trace{Status: fw.DriverError, Note: fmt.Sprintf("gated: StartServerTunnel is %s at %q, expected parked at the routing record's Set (result %v)", st, gi.Point, wd.sch.Result(name))}
+		}
+		key, _ := gi.Info["key"].(string)
+		f.TunnelID = strings.TrimPrefix(key, waitingPrefix)
+		wd.gmu.Lock()
+		wd.keyT[key] = t
+		wd.gmu.Unlock()
+		wd.regProc[t], wd.inFlight[t], wd.pendWant[t], wd.mapOf[t], wd.ids[t] = name, true, f, mid, f.TunnelID
+		// RegisterWaitingTunnel fixed ExpiresAt before issuing the Set: the waiting period runs from here
+		return []fw.Event{{"ev": "Create", "n": n, "t": t, "cls": wd.beh.Cls, "period": 1}}, 0, nil
+	case "Set":
+		if !wd.inFlight[t] {
+			return nil, 0, &fw.Trace{Status: fw.DriverError, Note: "gated: no write of " + t + " in flight"}
+		}
+		if st, _ := wd.sch.Step(wd.regProc[t]); st != sched.Done {
+			return nil, 0, &fw.Trace{Status: fw.DriverError, Note: "gated: StartServerTunnel did not return after its Set was released: " + st}
+		}
+		if err, _ := wd.sch.Result(wd.regProc[t]).(error); err != nil {
+			return nil, 0, &fw.Trace{Status: fw.DriverError, Note: "gated: StartServerTunnel: " + err.Error()}
+		}
+		wd.inFlight[t] = false
+		wd.want[t] = wd.pendWant[t]
+		return []fw.Event{{"ev": "Set", "n": n, "t": t}}, 0, nil
+	case "End":
+		br := sm().GetTunnelBridgeByMappingID(wd.mapOf[t], 0)
+		if br == nil {
+			return nil, 0, &fw.Trace{Status: fw.DriverError, Note: "gated: no bridge for " + t}
+		}
+		br.Close()
+		evs := []fw.Event{{"ev": "TunnelEnd", "n": n, "t": t}}
+		var waited time.Duration
+		if wd.inFlight[t] && !(next != nil && next.A == "Removed" && next.T == t) {
+			// give a removal that the code may issue right away (it should not) the time to arrive
+			// (not when the schedule itself asks for that removal next)
+			t0 := time.Now()
+			if wd.waitLife(t, 30*time.Millisecond) {
+				evs = append(evs, wd.early(n, "")...)
+			}
+			waited = time.Since(t0)
+		}
+		return evs, waited, nil
+	case "Removed":
+		// the lifecycle's RemoveWaitingTunnel: must arrive once the write has returned; while the
+		// write is still parked it arrives only if the code starts the lifecycle first
+		t0 := time.Now()
+		limit := 2 * time.Second
+		if wd.inFlight[t] {
+			limit = 150 * time.Millisecond
+		}
+		if !wd.waitLife(t, limit) {
+			return nil, 0, &fw.Trace{Status: fw.Unrealisable, Note: "the lifecycle's removal of " + t + "'s record has not been issued (write in flight: " + fmt.Sprint(wd.inFlight[t]) + ")"}
+		}
+		return []fw.Event{wd.letRemove(n, t)}, time.Since(t0), nil
+	}
+	return nil, 0, &fw.Trace{Status: fw.DriverError, Note: "gated: unknown step " + s.A}
+}
+
 func drive(env *fw.Env, b fw.Behaviour) *fw.Trace {
 	var beh behaviour
 	if err := json.Unmarshal(b.Data, &beh); err != nil {
@@ -384,23 +580,48 @@ func drive(env *fw.Env, b fw.Behaviour) *fw.Trace {
 	t := &fw.Trace{Status: fw.Realised}
 	t.Events = append(t.Events, fw.Event{"ev": "Cfg", "be": beh.Be, "mode": beh.Mode})
 	seg := time.Now()
+	var waitedSeg time.Duration
 	over := func() *fw.Trace {
 		if d := time.Since(seg); d > segBudget {
 			return &fw.Trace{Status: fw.Inconclusive, Note: fmt.Sprintf("segment took %v (> %v)", d.Round(time.Millisecond), segBudget)}
 		}
 		return nil
 	}
-	for _, s := range beh.Steps {
+	for si, s := range beh.Steps {
 		var ev fw.Event
 		var bad *fw.Trace
+		var next *step
+		if si+1 < len(beh.Steps) {
+			next = &beh.Steps[si+1]
+		}
+		if beh.Mode == "gated" {
+			// removals the code issued ahead of a parked write go first (Diverged)
+			t.Events = append(t.Events, wd.early(s.N, map[bool]string{true: s.T}[s.A == "Removed"])...)
+		}
 		switch s.A {
+		case "Create", "Set", "End", "Removed":
+			if beh.Mode != "gated" {
+				return &fw.Trace{Status: fw.DriverError, Note: "call-site step outside gated mode"}
+			}
+			evs, waited, tr := wd.gatedStep(s, next)
+			if tr != nil {
+				return tr
+			}
+			// deliberate waiting is not the code's time, but it does use up the records' real
+			// lifetime: only a little of it is tolerated per segment
+			if waitedSeg += waited; waitedSeg > 100*time.Millisecond {
+				return &fw.Trace{Status: fw.Inconclusive, Note: fmt.Sprintf("waited %v for scheduled steps in one segment", waitedSeg.Round(time.Millisecond))}
+			}
+			seg = seg.Add(waited)
+			t.Events = append(t.Events, evs...)
+			continue
 		case "Tick":
 			if tr := over(); tr != nil {
 				return tr
 			}
 			time.Sleep(tickSleep)
 			wd.w.Advance(tickSleep)
-			seg = time.Now()
+			seg, waitedSeg = time.Now(), 0
 			ev = fw.Event{"ev": "Tick"}
 		case "Announce":
 			addr := fmt.Sprintf("10.%d.%d.%d:50052", wd.rng.Intn(250), wd.rng.Intn(250), 1+wd.rng.Intn(250))
@@ -424,20 +645,39 @@ func drive(env *fw.Env, b fw.Behaviour) *fw.Trace {
 	if tr := over(); tr != nil {
 		return tr
 	}
+	if wd.diverged != "" {
+		t.Status, t.Note = fw.Diverged, wd.diverged
+	}
 	return t
 }
 
 // ---- jobs ---------------------------------------------------------------------------------------
 
-func mcJob(name, nodes, tunnels string, ttl, maxReg int) fw.TLCJob {
+func mcJob(name, nodes, tunnels string, ttl, maxReg int, mode string, lifecycleFirst bool) fw.TLCJob {
+	lf, invs := "FALSE", "LookupGone NoDev"
+	if lifecycleFirst {
+		lf, invs = "TRUE", "LookupGoneOrDev"
+	}
 	return fw.TLCJob{Name: name, Module: "Routing", Cfg: "Routing_mc.cfg", Workers: 4, Consts: map[string]string{
-		"NODES": nodes, "TUNNELS": tunnels, "TTL": fmt.Sprint(ttl), "MAXREG": fmt.Sprint(maxReg)}}
+		"NODES": nodes, "TUNNELS": tunnels, "TTL": fmt.Sprint(ttl), "MAXREG": fmt.Sprint(maxReg), "MODE": mode, "LF": lf, "INVS": invs}}
 }
 
-func genJob(name, nodes, tunnels string, maxReg, maxClock, maxHist int) fw.TLCJob {
+func genJob(name, nodes, tunnels string, maxReg, maxClock, maxHist int, mode string, lifecycleFirst bool, only string) fw.TLCJob {
+	lf := "FALSE"
+	if lifecycleFirst {
+		lf = "TRUE"
+	}
 	return fw.TLCJob{Name: name, Module: "Routing", Cfg: "Routing_gen.cfg", Workers: 1, Consts: map[string]string{
-		"NODES": nodes, "TUNNELS": tunnels, "MAXREG": fmt.Sprint(maxReg), "MAXCLOCK": fmt.Sprint(maxClock), "MAXHIST": fmt.Sprint(maxHist)}}
+		"NODES": nodes, "TUNNELS": tunnels, "MAXREG": fmt.Sprint(maxReg), "MAXCLOCK": fmt.Sprint(maxClock), "MAXHIST": fmt.Sprint(maxHist),
+		"MODE": mode, "LF": lf, "ONLY": only}}
 }
+
+// altSrc generates the schedules of the OTHER design - the bridge lifecycle started before the
+// registration - that end in its deviation (a record written after its removal).  The as-is code
+// cannot follow them (the removal is never issued while the write is in flight: unrealisable);
+// a tree that can is judged on them.  The "legacy" prefix exempts the source from the
+// realisable-share guard of the framework.
+const altSrc = "legacy-alt:lifecycle-first"
 
 var seenBeh = map[string]bool{}
 var expandN int
@@ -447,27 +687,47 @@ func main() {
 		ID:        "C09",
 		DesignRef: "DESIGN.md §5 C09",
 		ModelJobs: func(env *fw.Env) []fw.TLCJob {
-			if env.Tier == "thorough" {
-				return []fw.TLCJob{
-					mcJob("mc:2n2t", `{"A", "B"}`, `{"t1", "t2"}`, 1, 3),
-					mcJob("mc:2n2t:ttl2", `{"A", "B"}`, `{"t1", "t2"}`, 2, 3),
-					mcJob("mc:3n3t", `{"A", "B", "C"}`, `{"t1", "t2", "t3"}`, 2, 2),
-				}
+			ab, t2 := `{"A", "B"}`, `{"t1", "t2"}`
+			jobs := []fw.TLCJob{
+				mcJob("mc:atomic:2n2t", ab, t2, 1, 2, "atomic", false),
+				mcJob("mc:split:2n2t", ab, t2, 1, 2, "split", false),
+				mcJob("mc:split:lifecycle-first", ab, t2, 1, 2, "split", true),
 			}
-			return []fw.TLCJob{mcJob("mc:2n2t", `{"A", "B"}`, `{"t1", "t2"}`, 1, 2)}
+			if env.Tier == "thorough" {
+				jobs = append(jobs,
+					mcJob("mc:atomic:2n2t:ttl2", ab, t2, 2, 3, "atomic", false),
+					mcJob("mc:atomic:3n3t", `{"A", "B", "C"}`, `{"t1", "t2", "t3"}`, 2, 2, "atomic", false),
+					mcJob("mc:split:2n2t:ttl2", ab, t2, 2, 3, "split", false),
+					mcJob("mc:split:3n2t", `{"A", "B", "C"}`, t2, 2, 2, "split", false))
+			}
+			return jobs
 		},
 		GenJobs: func(env *fw.Env) []fw.TLCJob {
+			ab, t1, t2 := `{"A", "B"}`, `{"t1"}`, `{"t1", "t2"}`
 			if env.Tier == "thorough" {
 				return []fw.TLCJob{
-					genJob("gen:2n2t", `{"A", "B"}`, `{"t1", "t2"}`, 2, 2, 10),
-					genJob("gen:3n2t", `{"A", "B", "C"}`, `{"t1", "t2"}`, 2, 2, 9),
+					genJob("gen:2n2t", ab, t2, 2, 2, 10, "atomic", false, "all"),
+					genJob("gen:3n2t", `{"A", "B", "C"}`, t2, 2, 2, 9, "atomic", false, "all"),
+					genJob("gen:split", ab, t2, 2, 2, 9, "split", false, "all"),
+					genJob(altSrc, ab, t2, 2, 2, 9, "split", true, "dev"),
 				}
 			}
-			return []fw.TLCJob{genJob("gen:2n2t", `{"A", "B"}`, `{"t1", "t2"}`, 2, 2, 9)}
+			return []fw.TLCJob{
+				genJob("gen:2n2t", ab, t2, 2, 2, 9, "atomic", false, "all"),
+				genJob("gen:split", ab, t1, 2, 2, 9, "split", false, "all"),
+				genJob(altSrc, ab, t1, 2, 2, 9, "split", true, "dev"),
+			}
 		},
 		MaxBehSrc: func(env *fw.Env, src string) int {
-			if env.Tier == "thorough" {
-				return 1200
+			switch {
+			case env.Tier == "thorough" && src == altSrc:
+				return 300
+			case env.Tier == "thorough":
+				return 1000
+			case src == "gen:split":
+				return 90
+			case src == altSrc:
+				return 54
 			}
 			return 150
 		},
@@ -484,6 +744,36 @@ func main() {
 			look := false
 			for _, s := range steps {
 				look = look || s.A == "Lookup"
+			}
+			split := false
+			for _, s := range steps {
+				split = split || s.A == "Create"
+			}
+			if split {
+				// call-site steps: realised through the gate on every wiring; every tunnel touched
+				// is looked up from every node at the end
+				seenT := map[string]bool{}
+				for _, s := range steps {
+					if s.T != "" && s.T != "-" && !seenT[s.T] {
+						seenT[s.T] = true
+					}
+				}
+				for _, t := range []string{"t1", "t2", "t3"} {
+					if seenT[t] {
+						steps = append(steps, step{A: "Lookup", N: "A", T: t}, step{A: "Lookup", N: "B", T: t})
+					}
+				}
+				var out []json.RawMessage
+				k := expandN
+				expandN++
+				for i, be := range wire.Names {
+					cls := classes[(k+2*i)%len(classes)]
+					if cls == "big" {
+						cls = "unicode"
+					}
+					out = append(out, fw.MustJSON(behaviour{Be: be, Mode: "gated", Cls: cls, Steps: steps}))
+				}
+				return out
 			}
 			if !look { // nothing observed
 				return nil
@@ -515,10 +805,11 @@ func main() {
 			}
 			return look
 		},
-		Rule: "one behaviour per transition (state, event) of the bounded Routing state graph (shortest history to the state + the event), each replayed on the memory, Redis and tiered wirings with a rotating value class, plus one realisation through StartServerTunnel / bridge end; non-trivial = a lookup after a registration",
+		Rule: "call-site steps (bridge created / record set / tunnel ends / record removed, the write gated) as a second transition cover on every wiring, plus the schedules of the lifecycle-first design that end in a late write; and: one behaviour per transition (state, event) of the bounded Routing state graph (shortest history to the state + the event), each replayed on the memory, Redis and tiered wirings with a rotating value class, plus one realisation through StartServerTunnel / bridge end; non-trivial = a lookup after a registration",
 		Assumptions: []string{
 			"waiting period 400 ms = 1 model tick; a tick sleeps 600 ms; behaviours whose register..lookup segment took more than 130 ms are discarded as inconclusive",
 			"miniredis stands in for Redis; its virtual clock is advanced together with the real sleep",
+			"gated mode: the SessionManager's RoutingTable writes and deletes routing records through a scheduler gate in front of the node's storage; the tunnel is ended by closing the real bridge; a removal issued while the write is parked is let through first (Diverged, judged)",
 			"nodes are RoutingTable instances (site mode: srvkit SessionManagers with a cloud-control stub supplying the port mapping) of one process over one shared store",
 			"field values are generated (seeded), not exhaustive; strings are valid UTF-8 as every field arrives through JSON decoding in production",
 		},
